@@ -51,11 +51,13 @@ static long run_seq(const vector<int> &ops, int mode, bool trans, bool &legal, s
     catch (vpsc::CriticalFailure &f) { assertion = f.what(); }
     return mcx::heap_live_system() - before;
 }
-static void phase(int depth, int mode, bool trans) {
-    ctx.phase(mcx::fmt("Router histories depth=%d mode=%s transactions=%d over %d operations (+ ~Router)", depth, mode == OrthogonalRouting ? "orthogonal" : "polyline", trans, (int)NOPS));
-    vector<int> idx(depth, 0);
+static void phase(int depth, int mode, bool trans, const vector<int> &subset = {}) {
+    const int A = subset.empty() ? (int)NOPS : (int)subset.size();
+    ctx.phase(mcx::fmt("Router histories depth=%d mode=%s transactions=%d over %d operations%s (+ ~Router)", depth, mode == OrthogonalRouting ? "orthogonal" : "polyline", trans, A, subset.empty() ? "" : " (object life-cycle subset)"));
+    vector<int> sel(depth, 0), idx(depth, 0);
     do {
         if (ctx.stopped()) break;
+        for (int k = 0; k < depth; k++) idx[k] = subset.empty() ? sel[k] : subset[sel[k]];
         // cheap legality pre-filter on the first operation to cut enumeration: nothing can be moved/deleted in an empty router
         if (idx[0] == MOVE0 || idx[0] == MOVE1 || idx[0] == DEL0 || idx[0] == DEL1 || idx[0] == ADD_PIN0 || idx[0] == MOVE_JUNC || idx[0] == DEL_JUNC || idx[0] == SET_END || idx[0] == DEL_CONN || idx[0] == REG_HYPER || idx[0] == ADD_CONN_PIN || idx[0] == ADD_CONN_JUNC || idx[0] >= SET_CKPT) continue;
         if (!ctx.next()) continue;
@@ -69,11 +71,14 @@ static void phase(int depth, int mode, bool trans) {
             else if (d1 > 0) { bool l2; string a2; long d2 = run_seq(idx, mode, trans, l2, a2); if (d2 > 0) ctx.raw_violation("leak", {"site:leak after ~Router"}, desc, mcx::fmt("%ld allocations still live after the router was destroyed (repeatable)", d2)); }
         } else ctx.count("illegal_sequences_skipped");
         ctx.done_case();
-    } while (mcx::odo_next(idx, NOPS));
+    } while (mcx::odo_next(sel, A));
 }
 int main(int argc, char **argv) {
     ctx.init(argc, argv); ctx.opt["c15"] = "1";
     bool T = ctx.thorough();
     for (int depth = 1; depth <= (T ? 5 : 4); depth++) for (int mode : {(int)PolyLineRouting, (int)OrthogonalRouting}) for (int trans = 1; trans >= 0; trans--) phase(depth, mode, trans);
+    // depth 5 and 6 over the object life-cycle operations only (objects created, attached to, deleted and processed in different orders)
+    vector<int> life = {ADD_SHAPE0, ADD_PIN0, ADD_JUNC, DEL0, DEL_JUNC, ADD_CONN_PT, ADD_CONN_PIN, ADD_CONN_JUNC, DEL_CONN, SET_END, MOVE_JUNC, PROCESS};
+    for (int depth = 5; depth <= (T ? 7 : 6); depth++) for (int mode : {(int)PolyLineRouting, (int)OrthogonalRouting}) for (int trans = 1; trans >= 0; trans--) phase(depth, mode, trans, life);
     return ctx.finish();
 }
